@@ -204,6 +204,9 @@ def gen_rich(rng, P, serial=0):
   for sid in ids:
     pool = ids + ["sX"]
     refs = [rng.choice(pool) for _ in range(rng.choice([0, 0, 1, 1, 2]))]
+    if len(ids) >= 3 and rng.random() < 0.1:
+      others = [x for x in ids if x != sid]
+      refs = [others[0], others[1], others[0]]
     doc["S"].append({"id": sid, "refs": refs, "attrs": rand_attrs(rng, CONTENT_PROPS + ["displayAlign"], 1, 3)})
   forced = None
   if nstyles >= 3 and rng.random() < 0.35:
@@ -228,7 +231,11 @@ def gen_rich(rng, P, serial=0):
       return [forced]
     if not ids or rng.random() < 0.5:
       return []
-    return [rng.choice(ids + ["sX"]) for _ in range(rng.choice([1, 1, 2, 3]))]
+    refs = [rng.choice(ids + ["sX"]) for _ in range(rng.choice([1, 1, 2, 3]))]
+    if len(ids) >= 2 and rng.random() < 0.25:
+      a, b = rng.sample(ids, 2)
+      refs = [a, b, a]              # the same id repeated after a different one: the LAST occurrence decides
+    return refs
 
   def text(parent):
     ks = doc["N"][parent - 1]["kids"]
